@@ -2,7 +2,7 @@
 # tools/par_setup.sh <n>: worker copies /tmp/pw<k>/verif (this tree, own cargo target) + /tmp/pw<k>/repo (worktree of /repo HEAD)
 # for running seed / benign matrices in parallel without touching /repo. Remove with tools/par_teardown.sh.
 n=${1:-4}
-for k in $(seq 1 $n); do
+for k in ${KS:-$(seq 1 $n)}; do
   d=/tmp/pw$k
   mkdir -p $d
   [ -d $d/repo ] || git -C /repo worktree add -q --detach $d/repo HEAD
